@@ -7,7 +7,9 @@ ShownPfx(d) == (IF Has(d.pfx, 240) THEN {"lock"} ELSE {})
          \cup (IF Has(d.pfx, 242) /\ "mp" \notin d.use THEN {"repne"} ELSE {})
          \cup (IF Has(d.pfx, 62) /\ "notrack" \in d.use THEN {"notrack"} ELSE {})
 SeqSet(s) == {s[j] : j \in 1..Len(s)}
-Class(r, d) == IF ~d.ok THEN "specrej" ELSE IF ~Meaningful(d.pfx, d) THEN "superfluous" ELSE IF ~r.ok THEN "implrej" ELSE "cmp"
+\* strings whose prefixes have no determinate meaning are counted, not compared; a superfluous prefix whose effect IS
+\* determinate (IA32Decode!Determinate: repeated 66/67, unused 66/67/segment) is compared like any other string
+Class(r, d) == IF ~d.ok THEN "specrej" ELSE IF ~Determinate(d.pfx, d) THEN "superfluous" ELSE IF ~r.ok THEN "implrej" ELSE "cmp"
 Clauses(r, d) ==
    LET df == TLCEval(InstrDiff(d, r))
        pre == SeqSet(r.pre) IN
